@@ -467,7 +467,7 @@ impl Property for P {
         "C18"
     }
     fn rule(&self) -> String {
-        "Generated: scripts of 2..=6 independent sessions (any of 48 suites), each a short list of setup, seals, opens, a failing open and exports on both sides; sessions deliberately share components with the first one with probability 1/2 each (recipient key, info, psk, RNG stream, suite) so that a cache keyed on part of the inputs is hit; an interleaving (owned by the harness, single-threaded) and a thread count 2..=8. \
+        "Generated: scripts of 2..=6 independent sessions (any of 48 suites), each a short list of setup, seals, opens, a failing open and exports on both sides; sessions deliberately share components with the first one with probability 1/2 each (recipient key, info, psk, RNG stream, suite) so that a cache keyed on part of the inputs is hit, or (probability 1/2) have the same suite, mode and concatenation psk_id||info resp. psk||psk_id as the first one cut at a different place, so that a cache keyed on an unframed concatenation is hit; an interleaving (owned by the harness, single-threaded) and a thread count 2..=8. \
          Oracle: per-session transcripts (enc, ciphertexts, plaintexts, exports, errors, RNG bytes drawn) are identical in: sequential order, reverse order, the generated interleaving, every operation on a different thread (contexts moved between threads through channels), every session on its own thread concurrently, and a second sequential execution later in the process; concurrent shared-reference exports equal the sequential values; for 28 sweep sessions (one per 7th suite x mode cell) the transcript computed in this long-lived process equals the one computed by a fresh child process that runs nothing else (process-history independence). Compile probe probes/c18: Send + Sync for contexts, keys, tags, encapsulated keys, shared secrets, PskBundle, OpModeS/R, HpkeError over all 48 suites. \
          Non-trivial: >=2 sessions whose interleaving switches context between two seals of the same context."
             .into()
@@ -478,13 +478,48 @@ impl Property for P {
     fn strategy(&self, _tier: Tier) -> BoxedStrategy<Case> {
         let script = (gen::session_with(gen::suite_any()), proptest::collection::vec(sop(), 1..=8), any::<u8>());
         (proptest::collection::vec(script, 2..=6), proptest::collection::vec(any::<u16>(), 0..=40), 2u8..=8)
-            .prop_map(|(raw, schedule, threads)| {
+            .prop_map(|(mut raw, schedule, threads)| {
+                // a re-split (mask bit 7) only means something in a PSK mode: the base session gets one
+                if raw.iter().skip(1).any(|r| r.2 & 128 != 0) {
+                    raw[0].0.mode |= 1;
+                }
                 let base = raw[0].0.clone();
                 let scripts = raw
                     .into_iter()
                     .enumerate()
                     .map(|(i, (mut sess, ops, mask))| {
-                        if i > 0 {
+                        if i > 0 && mask & 128 != 0 {
+                            // same suite, mode and concatenation of two adjacent key-schedule inputs as the
+                            // base session, cut at a different place (a cache keyed on the unframed
+                            // concatenation confuses the two)
+                            sess.suite = base.suite;
+                            sess.mode = base.mode;
+                            sess.psk = base.psk.clone();
+                            sess.psk_id = base.psk_id.clone();
+                            sess.info = base.info.clone();
+                            let (a, b) = if mask & 64 != 0 { (base.psk.0.clone(), base.psk_id.0.clone()) } else { (base.psk_id.0.clone(), base.info.0.clone()) };
+                            let second_may_be_empty = mask & 64 == 0;
+                            let mut cat = a.clone();
+                            cat.extend_from_slice(&b);
+                            let shift = 1 + (mask as usize & 3);
+                            let cut = if i % 2 == 1 && a.len() + shift <= cat.len() - usize::from(!second_may_be_empty) {
+                                a.len() + shift
+                            } else if a.len() > shift {
+                                a.len() - shift
+                            } else if a.len() + 1 <= cat.len() - usize::from(!second_may_be_empty) {
+                                a.len() + 1
+                            } else {
+                                a.len()
+                            };
+                            let (x, y) = (Bytes(cat[..cut].to_vec()), Bytes(cat[cut..].to_vec()));
+                            if mask & 64 != 0 {
+                                sess.psk = x;
+                                sess.psk_id = y;
+                            } else {
+                                sess.psk_id = x;
+                                sess.info = y;
+                            }
+                        } else if i > 0 {
                             if mask & 1 != 0 {
                                 sess.suite = base.suite;
                             }
@@ -540,6 +575,21 @@ impl Property for P {
                 SOp::OpenNext,
                 SOp::ExportR { ctx: Bytes(b"x".to_vec()), len: 24 },
             ];
+            if m & 1 != 0 {
+                // PSK modes: two more sessions right after the first whose (psk_id, info) resp. (psk, psk_id)
+                // concatenate to the same bytes as the first one's, cut one byte later
+                let mut d = a.clone();
+                d.psk_id = Bytes([&a.psk_id.0[..], &a.info.0[..1]].concat());
+                d.info = Bytes(a.info.0[1..].to_vec());
+                let mut e = a.clone();
+                e.psk = Bytes([&a.psk.0[..], &a.psk_id.0[..1]].concat());
+                e.psk_id = Bytes(a.psk_id.0[1..].to_vec());
+                v.push(Case {
+                    scripts: vec![Script { sess: a.clone(), ops: ops.clone() }, Script { sess: d, ops: ops.clone() }, Script { sess: a.clone(), ops: ops.clone() }, Script { sess: e, ops: ops.clone() }],
+                    schedule: (0..24).map(|i| (i * 21845) as u16).collect(),
+                    threads: 3,
+                });
+            }
             v.push(Case {
                 scripts: vec![Script { sess: a, ops: ops.clone() }, Script { sess: b, ops: ops.clone() }, Script { sess: c, ops }],
                 schedule: (0..24).map(|i| (i * 21845) as u16).collect(),
